@@ -30,6 +30,7 @@ RULE = (
     "caught at an enclosing level that continued (or a closure fault), followed by a canary; distinct by history. operator_reuse: the VJP "
     "function and the JVP function of every call template are called three times (first argument, another, the first again): the "
     "first and the third answers are bitwise equal."
+    ' Steps added later: lazy_operator, recorded_graph (const_graph after a failed recording call), cotangent_reuse.'
 )
 
 _REF = {}
